@@ -211,7 +211,7 @@ AcctOf(s, w, name) == IF name \in DOMAIN s.w[w].labels THEN s.w[w].labels[name] 
 RECURSIVE BumpSteps(_, _, _)
 BumpSteps(s, w, n) == IF n = 0 THEN <<>> ELSE <<BumpChild(s, w)>> \o BumpSteps(BumpChild(s, w), w, n - 1)
 RECURSIVE ChildKeys(_, _, _)
-ChildKeys(s, w, n) == IF n = 0 THEN <<>> ELSE <<NextChildKey(s, w)>> \o ChildKeys(BumpChild(s, w), w, n - 1)
+ChildKeys(s, w, n) == IF n <= 0 THEN <<>> ELSE <<NextChildKey(s, w)>> \o ChildKeys(BumpChild(s, w), w, n - 1)
 
 LastOr(q, d) == IF Len(q) = 0 THEN d ELSE LastOf(q)
 \* register the change outputs planned by a selection: keys ks (sequence), values vs,
